@@ -31,7 +31,7 @@ def run(ctx):
     ctx.floor('R28.1', 'appends to the decompression buffer', len(apps), 1)
     want = 'Gt(Add(Vec::len(Vec::new()),Try::branch(Result::ok(Read::read(tmp,tmp))).v:Continue.0),Ord::min(num::saturating_mul(slice::len(Try::branch(tmp).v:Continue.0),MAX_PROPERTIES_COMPRESSION_RATIO),MAX_COMPRESSED_PROPERTIES_SIZE))==False'
     for c in apps:
-      gs = guard_strings(pc, c.bb)
+      gs = guard_strings(pc, c.bb, forms=True)
       sz = [g for g in gs if g.startswith('Gt(Add(Vec::len(') and g.endswith('==False')]
       okb = len(sz) == 1 and 'Ord::min(num::saturating_mul(slice::len(' in sz[0] and 'MAX_PROPERTIES_COMPRESSION_RATIO),MAX_COMPRESSED_PROPERTIES_SIZE))' in sz[0]
       ctx.ob('R28.1', pc.n, f'{(c.name or "").split("::")[-1]} on the output is dominated by the size guard with the documented bound', okb, f'guards {gs}', where(pc, c.line))
